@@ -1,1 +1,2 @@
+import Driver.HandlerSteps
 import Driver.Slice
